@@ -87,7 +87,7 @@ def make_schema(sources, async_resolver, with_resolver=True):
 
 def _name_behaviour(parent, field, path):
     """what make_schema's name_resolver does, as a world function for the reference executor"""
-    if parent is None or isinstance(parent, (int, str)):
+    if parent is None or isinstance(parent, (int, str)) or (len(path) == 1 and isinstance(parent, dict) and field not in parent):
         return ("null",)          # a None / scalar event: the library's default resolver finds nothing on it (an event is the root VALUE, not the field's value)
     if field == "name" and isinstance(parent, dict) and parent.get("bad"):
         return ("error", "bad %s" % parent["bad"], {"event": parent["bad"]})
@@ -103,11 +103,11 @@ def person(k, bad=False, nested_bad=False):
 
 
 def event_sequences(tier):
-    kinds = ("ok", "bad", "nested", "none", "scalar")        # "none" / "scalar": the source yields None / a bare number - events like any other (one result each)
+    kinds = ("ok", "bad", "nested", "none", "scalar", "falsy")          # "falsy": an empty mapping / zero - events too, not "no event"        # "none" / "scalar": the source yields None / a bare number - events like any other (one result each)
     maxlen = 4 if tier == "thorough" else 3
     for n in range(0, maxlen + 1):
         for combo in itertools.product(kinds, repeat=n):
-            yield [None if c == "none" else (100 + k) if c == "scalar" else {"ping": person(k, bad=c == "bad", nested_bad=c == "nested"), "tick": k} for k, c in enumerate(combo)], combo
+            yield [None if c == "none" else (100 + k) if c == "scalar" else ({} if k % 2 == 0 else 0) if c == "falsy" else {"ping": person(k, bad=c == "bad", nested_bad=c == "nested"), "tick": k} for k, c in enumerate(combo)], combo
 
 
 def check(tier, seed):
@@ -125,7 +125,8 @@ def check(tier, seed):
             rt = AsyncIORuntime(loop=loop) if runtime_factory is None else runtime_factory()
 
             async def go():
-                stream = await subscribe(schema, parse(query), variables=variables, context_value={"events": events, "delays": delays, "reiterable": reiterable}, runtime=rt)
+                stream = await subscribe(schema, parse(query), variables=variables, context_value={"events": events, "delays": delays, "reiterable": reiterable}, runtime=rt,
+                                         initial_value={"ping": person(99), "tick": 99})          # (the root value of the subscription resolver; no event is it)
                 out = []
                 async for res in stream:
                     out.append(res)
